@@ -103,4 +103,10 @@ CHECKS = {
         "note": ASSUME % "T7, T8, T9" + " Evaluated under feature sets containing metrics.",
         "technique": "static analysis: dominance + coroutine-layout typestate for the RAII guard, who-may-write inventory of atomics, expression-tree sibling comparison",
     },
+    "C19": {
+        "level": "translation_validation",
+        "text": "The proc macros are validated as a translator on a generated corpus (quick: seeded sample covering every return-type spelling x attribute option, ~65 programs; thorough: the full product of the grammar, ~800 programs) compiled against the real macros under the extractor and checked statically against an independent oracle table: Reply == declared return type (compiler type equality), handle() is a verbatim awaited forwarder, on_tell_result overridden iff the documented table says so and logging only under Err, user's method kept, derive(Actor) yields Args=Self/Error=Infallible/on_start=Ok(args) for every actor shape; 9 negative programs must be rejected with the macro's own diagnostic (a compiling twin guards against vacuous failure). Runtime half decided in /repo: on_tell_result is called exactly once per tell, never for ask, with a reference to the handler's value.",
+        "note": "Programs are type-checked, never executed. Trusts rustc's type equality and that the pinned nightly expands the macros as stable does (T8). Programs outside the generated grammar are not covered.",
+        "technique": "static analysis: translation validation of macro expansions (generated corpus type-checked and inspected through the MIR extractor) + compile-fail witnesses",
+    },
 }
